@@ -9,10 +9,15 @@ ENTRY = {'coq_dir': 'C09',
  'consts': [],
  'nontrivial_min_trace': 40,
  'rule': '`cases` real-time schedules (T = 100/300/500 ms, ops on a 200 ms grid so that every keep-alive deadline is 100 ms away from every poll; '
-         "6-14 ops: establish, open, answer, inbound substream, drop substream, shut down the write half of a held substream (tcp::Substream::poll_shutdown) and keep holding it, other protocols' senders, close, idle polls; keep-alive and "
-         'non-keep-alive protocol; a run whose steps drifted > 45 ms from the grid is repeated) plus 2*cases untimed reference-counting histories, '
-         'all against a real TransportService; compared per op with the extracted model: events, Active->Inactive flips, handle active flags, '
-         'tracked keys, number of armed sleeps, per channel whether a strong sender exists (= the connection task keeps running)',
+         '6-14 ops: establish, open, answer, inbound substream, drop substream, shut down the write half of a held substream '
+         "(tcp::Substream::poll_shutdown) and keep holding it, other protocols' senders, close, idle polls; keep-alive and non-keep-alive protocol; "
+         'a run whose steps drifted > 45 ms from the grid is repeated) plus 2*cases untimed reference-counting histories, all against a real '
+         'TransportService; compared per op with the extracted model: events, Active->Inactive flips, handle active flags, tracked keys, number of '
+         'armed sleeps, per channel whether a strong sender exists (= the connection task keeps running); plus max(2, cases/8) end-to-end cases: two '
+         'real litep2p nodes over loopback TCP or WebSocket, keep-alive timeout 400/700 ms, a keep-alive user protocol on both opening / holding / '
+         'half-closing / dropping substreams in slots of 300 ms (op at 300k, observation at 300k+200, deadlines 100 ms from both), ping every 100 ms '
+         'as non keep-alive traffic in half of them; observed: whether both applications have been told ConnectionClosed at every observation point; '
+         "predicted by two instances of the Ts model (a node's connection task ends when strong = 0); repeated when a step drifted > 45 ms",
  'trusted_base': ['tokio: sleep does not fire early, mpsc WeakSender::upgrade succeeds iff a strong sender exists, the connection task exits when '
                   'the last strong sender is gone (tcp/connection.rs, not exercised here)',
                   'real time: the tracker reads std::time::Instant; the behavioural tie holds on a 200 ms grid with 100 ms margins (runs with > 45 '
@@ -24,8 +29,9 @@ ENTRY = {'coq_dir': 'C09',
                'old, and at exactly last + T when the step does not jump over a due time; after every poll nothing tracked is overdue and (feasible '
                'histories) every Active handle has an activity less than T ago; substreams of a non-keep-alive protocol move no time and re-activate '
                "nothing; a permit in flight or a live keep-alive substream keeps the channel's strong count positive, and with none of them and no "
-               'other protocol it is zero; half-closing a held substream (write half shut down, still read) releases nothing. Tied to the code by a real-time differential run.',
- 'level_note': 'Partial for real time: timer accuracy, executor latency and tokio channel semantics are assumptions; the end-to-end close of the TCP '
-               'connection task (handle_protocol_command(None)) is not exercised. The single-sleep theorem needs the per-connection FIFO assumption '
-               '(a counterexample without it is proved).',
+               'other protocol it is zero; half-closing a held substream (write half shut down, still read) releases nothing. Tied to the code by a '
+               'real-time differential run.',
+ 'level_note': 'Partial for real time: timer accuracy, executor latency and tokio channel semantics are assumptions; the end-to-end stream observes '
+               'the close of the real TCP/WebSocket connection task on a 300 ms grid with 100 ms margins (not at the deadline itself; QUIC is not in '
+               'the stream). The single-sleep theorem needs the per-connection FIFO assumption (a counterexample without it is proved).',
  'assumptions': ["armed sleeps are polled (the protocol's event loop polls the service when woken)", 'time is monotone']}
